@@ -160,6 +160,11 @@ func ExtractMachine(prog *Program, rel, typeName string, rootNames []string) (*M
 		carried: map[any]string{}, tables: map[string]string{}, tableLen: map[string]int{}, caseCodes: map[int64]string{}, roots: map[string]*types.Func{},
 		belowC: map[string][]absStack{}, belowKeys: map[string]bool{}, posFields: map[string]bool{}}
 	m.recvObj = info.Defs[fd.Recv.List[0].Names[0]]
+	defer func() {
+		if m.in != nil && m.recvObj != nil {
+			m.in.recvName = m.recvObj.Name()
+		}
+	}()
 	// parameters: the []byte buffer and the bool "last"
 	for _, fl := range fd.Type.Params.List {
 		for _, n := range fl.Names {
